@@ -378,6 +378,19 @@ func specialScalars() [][]byte {
 			}
 		}
 	}
+	// byte and text strings with real content, lengths on both sides of 23/24, 32 and 64
+	for _, major := range []byte{2, 3} {
+		for _, n := range []int{1, 2, 4, 6, 16, 23, 24, 31, 32, 33, 63, 64, 65} {
+			b := []byte{major<<5 | byte(n)}
+			if n > 23 {
+				b = []byte{major<<5 | 24, byte(n)}
+			}
+			for i := 0; i < n; i++ {
+				b = append(b, byte('a'+i%26))
+			}
+			out = append(out, b)
+		}
+	}
 	for _, sv := range [][]byte{{0xf4}, {0xf5}, {0xf6}, {0xf7}, {0xf8, 0x00}, {0xf8, 0x20}, {0xf8, 0xff}, {0xe0}, {0xf3}, {0xfc}, {0xfd}, {0xfe}, {0xff}, {0x60}, {0x40}, {0x80}, {0xa0}} {
 		out = append(out, sv)
 	}
